@@ -118,6 +118,10 @@ type builder struct {
 	feats map[string]int
 	used  map[string]bool // aliases that were referenced
 	depth int
+	// the reference written last (for a repetition behind a late import)
+	lastRef     string
+	lastRefName name
+	lastRefKind kind
 }
 
 func (b *builder) w(s string) { b.b.WriteString(s) }
@@ -284,10 +288,35 @@ func (b *builder) segs(min, max int) []string {
 // ref writes a name reference and records what it must resolve to.
 func (b *builder) ref(k kind, allowSpecial bool, what string) {
 	n := b.drawName(k, allowSpecial)
+	b.writeRef(n, k, what)
+	if k != kClass || b.chance(1, 3, "rememberref") {
+		b.lastRef, b.lastRefName, b.lastRefKind = what, n, k
+	}
+}
+
+func (b *builder) writeRef(n name, k kind, what string) {
 	fq, special := b.sc.resolve(n, k)
 	b.want[fmt.Sprintf("name@%d", b.off())] = expectation{"name", fq, special, what + " " + n.text()}
 	b.w(n.text())
 	b.feats["pos:"+what]++
+}
+
+// repeatLastRef writes the most recent function-call / constant / class reference once more, spelled
+// identically, as a statement of its own (the name is resolved against the scope as it is now).
+func (b *builder) repeatLastRef() {
+	switch b.lastRefKind {
+	case kFunction:
+		b.writeRef(b.lastRefName, kFunction, "function-call")
+		b.w("();\n")
+	case kConst:
+		b.w("echo ")
+		b.writeRef(b.lastRefName, kConst, "constant-fetch")
+		b.w(";\n")
+	default:
+		b.w("new ")
+		b.writeRef(b.lastRefName, kClass, "new")
+		b.w(";\n")
+	}
 }
 
 func (b *builder) decl(group, nm, what string) {
